@@ -18,7 +18,8 @@
 (*     beta(a, b, scale)    m_k = scale (a+k-1)/(a+b+k-1) m_{k-1}          *)
 (*     laplace(mu, b)       central moments k! b^k (k even), 0 (k odd);    *)
 (*                          raw moments by the binomial theorem            *)
-(*     truncnormal(mu, s2, a, b): moments involve erf -- not decided;      *)
+(*     truncnormal(mu, s2, a, b): moments involve erf -- not decided,     *)
+(*         except the mean of a truncation symmetric about mu (= mu);       *)
 (*                          support [a, b] and sampling are                *)
 (* TLA+ cannot integrate: the recurrences are the stated reference for the *)
 (* continuous families (assumption of the check).  Support, discreteness   *)
@@ -72,6 +73,8 @@ Moment(d, k) ==
            [] d.f = "gamma"       -> QMul(QMul(d.scale, QAdd(d.shape, QInt(k - 1))), Moment(d, k - 1))
            [] d.f = "beta"        -> QMul(QMul(d.scale, QDiv(QAdd(d.a, QInt(k - 1)), QAdd(QAdd(d.a, d.b), QInt(k - 1)))),
                                           Moment(d, k - 1))
+           \* truncated normal: only the mean of a truncation that is symmetric about mu is decided (= mu)
+           [] d.f = "truncnormal" -> d.mu
            [] d.f = "laplace"     -> QSum(LAMBDA j : IF j % 2 = 1 THEN QZero
                                                      ELSE QMul(QMul(QInt(Binom(k, j)), QPow(d.mu, k - j)),
                                                                QMul(QInt(Fact(j)), QPow(d.b, j))), 0, k)
